@@ -6,6 +6,21 @@ ROOT = os.path.dirname(os.path.dirname(os.path.abspath(__file__)))
 
 # id -> (category, technique, level text, level note, design ref)
 CHECKS = {
+ "C03": ("exploration",
+   "stateful proptest histories on an in-memory connection with a harness-owned schedule; per-packet-id exchange model",
+   "Generated histories of 1..5 inbound publishes (QoS 0/1/2, payloads delivered in pieces so that they are streamed, random flags/properties), handler outcomes "
+   "(ok / error / v5 negative ack / v5 error mapped to an ack), eager/lazy/abandoning readers, deferred completions in generated order, PUBREL answered by a scripted peer, "
+   "PINGREQ/SUBSCRIBE interleaved, for v3/v5 x server/client. Checked: one handler entry with exactly the packet sent, payload equality, no success ack before the handler "
+   "completed, per-QoS acknowledgement counts and order, failures never acknowledged as success.",
+   "Trusted: IoTest as transport, yield-only settle() fixed point, reference codec used by the scripted peer. Known finding (client roles acknowledge QoS 2 with PUBACK) is excluded by construction and reported as KNOWN-FINDING.",
+   "DESIGN.md section 3 C03"),
+ "C04": ("exploration",
+   "bounded-exhaustive schedules (all completion permutations x immediate/deferred masks) + proptest histories; order oracle on the spec-decoded wire",
+   "For seven request-kind patterns every completion permutation, every immediate/deferred mask and two arrival groupings are executed (n=4 quick, n=5 thorough); random histories add write "
+   "groupings, gate openings interleaved with arrivals and stalled-peer (write back-pressure) episodes. At every settle point the responses on the wire must be exactly the longest "
+   "arrival-order prefix of completed requests.",
+   "Trusted: as C03. Exhaustive only for the listed patterns.",
+   "DESIGN.md section 3 C04"),
  "C01": ("exploration",
    "proptest value generation; round-trip + differential against an independent spec codec; exhaustive varints",
    "Generated packet values of every kind (optional fields/properties independently present, all reason codes, boundary string lengths, PUBLISH aimed at "
